@@ -484,12 +484,13 @@ func runC22(args []string) {
 			c22DispCase(out, e, k, dc)
 		})
 	}
-	// 12: MaxAttempts is lowered while entries with more attempts are pending: three failures under an unlimited
-	// dispatcher, then a dispatcher with MaxAttempts = 2
+	// 12: MaxAttempts is lowered while entries with more attempts are pending: rows that already have 3 attempts (the
+	// counter is preset, as three failures under an unlimited dispatcher leave it) meet a dispatcher with MaxAttempts = 2
 	run(uint64(120), func(r *verifx.Rng) {
-		dc := c22DispCfg{stages: []c22Stage{{max: 0, conc: 4, batch: 8, min: 250 * ms, maxb: 250 * ms, lease: time.Minute}, {max: 2, conc: 1, batch: 1, min: 30 * ms, maxb: 60 * ms, lease: 250 * ms}}}
-		for _, s2 := range []string{"", "0", "00", "1", "01", "L0", "L1", "K", "0L", "000"} {
-			dc.scripts = append(dc.scripts, []string{"000", s2})
+		dc := c22DispCfg{stages: []c22Stage{{max: 2, conc: 1, batch: 1, min: 30 * ms, maxb: 60 * ms, lease: 250 * ms}}}
+		for _, s2 := range []string{"", "0", "00", "1", "01", "L0", "L1", "K", "0L", "000", "LL0", "L"} {
+			dc.scripts = append(dc.scripts, []string{s2})
+			dc.start = append(dc.start, 3)
 		}
 		c22DispCase(out, e, k, dc)
 	})
